@@ -110,7 +110,8 @@ type Mutex struct {
 	w       *Thread
 	readers map[*Thread]int
 	name    string
-	vc      VC
+	vc      VC // released by writers (Unlock)
+	rvc     VC // released by readers (RUnlock): ordered before later writers only
 }
 
 func isSym(v Val) bool { _, ok := v.(Sym); return ok }
